@@ -485,12 +485,18 @@ def run_real(inp):
         for i in lst:
             params = []
             for p in i.parameters:
-                if isinstance(p, str) and repr(p) in pcode.d:
-                    params.append(pcode(p))
-                elif isinstance(p, str) and len(i.atoms) == 4:
-                    # a formatted dihedral phase: recompute from the interaction's own atoms
+                want = None
+                if isinstance(p, str) and len(i.atoms) == 4:
+                    # possibly a formatted dihedral phase: recompute it from the interaction's own atoms. This comes first: a
+                    # phase computed from the coordinates can read exactly like a literal parameter used somewhere else
+                    # ('-120.0'), and would then be taken for that literal
                     want = '{:.01f}'.format(np.degrees(geometry.dihedral_phase(np.stack([pos[a] for a in i.atoms]))))
-                    params.append(GEOM_BASE + 4 if p == want else -1)
+                if want is not None and p == want:
+                    params.append(GEOM_BASE + 4)
+                elif isinstance(p, str) and repr(p) in pcode.d:
+                    params.append(pcode(p))
+                elif want is not None:
+                    params.append(-1)
                 else:
                     params.append(pcode(p))
             out_inters.setdefault(str(tcode(t)), []).append({'atoms': list(i.atoms), 'params': params, 'meta': dict((str(k), v) for k, v in enc_meta(i.meta))})
